@@ -36,6 +36,24 @@ U.dict_records = {'Cfg'}
 _VAL_TRUTHY = z3.Function('val_truthy', U.sort('Val'), z3.BoolSort())
 # bool(v) of an arbitrary setting is unrelated to `v is the sentinel`: a truthiness test where the identity test belongs fails its obligations
 U.truthy = {'Val': lambda v: _VAL_TRUTHY(v)}
+_VAL_LT = z3.Function('val_lt', U.sort('Val'), U.sort('Val'), z3.BoolSort())
+
+
+def _order_hook(I, op, a, b):
+    """ordering of two arbitrary settings: an uninterpreted relation (a clamp or a comparison in the configuration layer is
+    explored, not rejected, and fails the postconditions that say the settings are stored / forwarded as given)"""
+    if is_z3(a) and is_z3(b) and I.sort_of(a) == 'Val' and I.sort_of(b) == 'Val':
+        if isinstance(op, ast.Lt):
+            return _VAL_LT(a, b)
+        if isinstance(op, ast.Gt):
+            return _VAL_LT(b, a)
+        if isinstance(op, ast.LtE):
+            return z3.Not(_VAL_LT(b, a))
+        return z3.Not(_VAL_LT(a, b))
+    return None
+
+
+U.order_hook = _order_hook
 Heap = z3.ArraySort(U.sort('Val'), z3.StringSort())
 U.sorts['Heap'] = Heap
 UNSET = z3.Const('UNSET', U.sort('Val'))
